@@ -1,10 +1,850 @@
-//! C17 — not built yet.
-use crate::{sx::Sx, Emitter};
+//! C17 — entry points for untrusted wire data never panic, abort or hang: a supervised mutation
+//! fuzzer over the real ruma code.
+//!
+//! case    = ( N<entry> S<part> ... )      the entry table is in c17_seeds.rs
+//! outcome = ( N0 payload )  the call returned a value        ( N1 Ncode )  it returned an error
+//!           ( N2 )  panic      ( N3 )  no answer within the watchdog time (hang)
+//!           ( N4 )  the worker process died (abort, stack overflow, out of memory)
+//!           ( N5 )  an input was rejected but had an effect: the caller's ruleset / object was
+//!                   changed although an error was returned, or the entry's fixed valid probe no
+//!                   longer gives its first result afterwards
+//!
+//! Every case is executed in a long-lived WORKER PROCESS (this binary, started with
+//! VHARNESS_C17_CHILD=1), on a thread with a bounded stack (2 MiB, the default of a spawned Rust
+//! thread, e.g. a tokio worker), cases arriving one per line on stdin and outcomes leaving on
+//! stdout.  The supervisor (this process) generates the cases, waits at most WATCHDOG_SECS for
+//! each outcome, and turns a silent or dead worker into an outcome instead of crashing the
+//! check; a new worker is started for the next case.  All cases between two such events run in
+//! ONE process, so state leaking from a rejected input into a later call is observable.
+use std::{
+    collections::BTreeMap,
+    io::{BufRead, BufReader, Write},
+    panic::AssertUnwindSafe,
+    process::{Child, ChildStdin, Command, Stdio},
+    sync::{mpsc, Mutex},
+    time::Duration,
+};
 
-pub fn run(_tier: &str, _seed: u64, _em: &mut Emitter) {}
+use ruma_common::{
+    api::{IncomingRequest, IncomingResponse},
+    http_headers::{ContentDisposition, ContentDispositionParseError, ContentDispositionType, TokenString},
+    power_levels::NotificationPowerLevels,
+    push::{
+        Action, FlattenedJson, NewPushRule, PushCondition, PushConditionPowerLevelsCtx, PushConditionRoomCtx, RuleKind,
+        Ruleset,
+    },
+    serde::{
+        base64::{Standard, UrlSafe},
+        Base64, Raw,
+    },
+    Base64PublicKey, CanonicalJsonObject, CanonicalJsonValue, ClientSecret, CrossSigningKeyId, DeviceKeyId, EventId,
+    MatrixToUri, MatrixUri, MxcUri, OneTimeKeyId, OwnedRoomId, OwnedUserId, RoomAliasId, RoomId, RoomOrAliasId,
+    RoomVersionId, ServerName, ServerSigningKeyId, ServerSigningKeyVersion, SessionId, UserId, VoipVersionId,
+};
+use ruma_events::{
+    AnyEphemeralRoomEvent, AnyEphemeralRoomEventContent, AnyGlobalAccountDataEvent, AnyGlobalAccountDataEventContent,
+    AnyInitialStateEvent, AnyMessageLikeEvent, AnyMessageLikeEventContent, AnyRoomAccountDataEvent,
+    AnyRoomAccountDataEventContent, AnyStateEvent, AnyStateEventContent, AnyStrippedStateEvent, AnySyncEphemeralRoomEvent,
+    AnySyncMessageLikeEvent, AnySyncStateEvent, AnySyncTimelineEvent, AnyTimelineEvent, AnyToDeviceEvent,
+    AnyToDeviceEventContent, EventContentFromType,
+};
+use ruma_federation_api::authentication::XMatrix;
+use ruma_html::{Html, HtmlSanitizerMode, RemoveReplyFallback};
+use ruma_signatures::{
+    content_hash, hash_and_sign_event, reference_hash, sign_json, verify_event, verify_json, Ed25519KeyPair, KeyPair,
+    PublicKeyMap,
+};
 
-pub fn replay(_case: &Sx) -> Option<Sx> {
-    None
+use crate::{
+    rng::Rng,
+    sx::{self, Sx},
+    Emitter,
+};
+
+include!("c16_endpoints.rs");
+include!("c17_entries.rs");
+include!("c17_seeds.rs");
+
+const WATCHDOG_SECS: u64 = 10;
+const DEFAULT_STACK: usize = 2 * 1024 * 1024;
+
+// ---------------------------------------------------------------------------------------------
+// worker process
+// ---------------------------------------------------------------------------------------------
+fn decode(case: &Sx) -> Option<(i128, Vec<Vec<u8>>)> {
+    let l = case.as_list()?;
+    let id = l.first()?.as_int()?;
+    let parts = l[1..].iter().map(|p| p.as_bytes().map(<[u8]>::to_vec)).collect::<Option<Vec<_>>>()?;
+    Some((id, parts))
+}
+
+fn call(e: &Entry, parts: &[Vec<u8>]) -> Option<Ret> {
+    std::panic::catch_unwind(AssertUnwindSafe(|| (e.f)(parts))).ok()
+}
+
+/// Run one case in this process.  `probes`: first result of each entry's fixed valid probe.
+fn run_here(table: &[Entry], probes: &BTreeMap<i128, String>, case: &Sx) -> Sx {
+    let Some((id, parts)) = decode(case) else { return Sx::L(vec![Sx::N(-1)]) };
+    let Some(e) = table.iter().find(|e| e.id == id) else { return Sx::L(vec![Sx::N(-1)]) };
+    let Some(r) = call(e, &parts) else { return Sx::panic() };
+    match r.kind {
+        0 => Sx::ok(r.payload.unwrap_or(Sx::L(vec![]))),
+        5 => Sx::L(vec![Sx::N(5)]),
+        _ => {
+            // a rejected input must have no effect on later calls: the fixed probe still answers
+            // what it answered first in this process
+            if let Some(first) = probes.get(&id) {
+                let probe = &(e.seeds)()[0];
+                match call(e, probe) {
+                    Some(again) if again.repr == *first => {}
+                    _ => return Sx::L(vec![Sx::N(5)]),
+                }
+            }
+            Sx::err(r.code)
+        }
+    }
+}
+
+fn first_probe_results(table: &[Entry]) -> BTreeMap<i128, String> {
+    let mut m = BTreeMap::new();
+    for e in table {
+        let probe = &(e.seeds)()[0];
+        if let Some(r) = call(e, probe) {
+            m.insert(e.id, r.repr);
+        }
+    }
+    m
+}
+
+fn child_main() -> ! {
+    let stack = std::env::var("VHARNESS_C17_STACK").ok().and_then(|s| s.parse().ok()).unwrap_or(DEFAULT_STACK);
+    let worker = std::thread::Builder::new().stack_size(stack).spawn(|| {
+        let table = entries();
+        let probes = first_probe_results(&table);
+        let stdin = std::io::stdin();
+        let stdout = std::io::stdout();
+        let mut out = stdout.lock();
+        for line in stdin.lock().lines() {
+            let Ok(line) = line else { break };
+            let res = match sx::parse_line(&line) {
+                Some(case) => run_here(&table, &probes, &case),
+                None => Sx::L(vec![Sx::N(-1)]),
+            };
+            if writeln!(out, "{}", res.to_line()).is_err() || out.flush().is_err() {
+                break;
+            }
+        }
+    });
+    let code = match worker.map(|h| h.join()) {
+        Ok(Ok(())) => 0,
+        _ => 3,
+    };
+    std::process::exit(code)
+}
+
+// ---------------------------------------------------------------------------------------------
+// supervisor
+// ---------------------------------------------------------------------------------------------
+struct Worker {
+    child: Child,
+    stdin: ChildStdin,
+    rx: mpsc::Receiver<String>,
+}
+
+#[derive(Default)]
+struct Supervisor {
+    worker: Option<Worker>,
+    starts: u64,
+    /// the slowest answered case: seconds, entry
+    slowest: (f64, i128),
+}
+
+impl Supervisor {
+    fn start(&mut self) -> Option<()> {
+        let exe = std::env::current_exe().ok()?;
+        let dir = std::env::temp_dir().join(format!("vharness-c17-{}", std::process::id()));
+        let mut child = Command::new(exe)
+            .args(["run", "C17", "--tier", "child", "--out"])
+            .arg(&dir)
+            .env("VHARNESS_C17_CHILD", "1")
+            .stdin(Stdio::piped())
+            .stdout(Stdio::piped())
+            .stderr(if std::env::var_os("VHARNESS_SHOW_PANICS").is_some() { Stdio::inherit() } else { Stdio::null() })
+            .spawn()
+            .ok()?;
+        let stdin = child.stdin.take()?;
+        let stdout = child.stdout.take()?;
+        let (tx, rx) = mpsc::channel();
+        std::thread::spawn(move || {
+            for line in BufReader::new(stdout).lines() {
+                let Ok(line) = line else { break };
+                if tx.send(line).is_err() {
+                    break;
+                }
+            }
+        });
+        self.worker = Some(Worker { child, stdin, rx });
+        self.starts += 1;
+        Some(())
+    }
+
+    fn stop(&mut self) {
+        if let Some(mut w) = self.worker.take() {
+            let _ = w.child.kill();
+            let _ = w.child.wait();
+        }
+    }
+
+    /// The outcome of one case, whatever happens to the worker.
+    fn run(&mut self, case: &Sx) -> Sx {
+        if self.worker.is_none() && self.start().is_none() {
+            return Sx::L(vec![Sx::N(-2)]);
+        }
+        let line = case.to_line();
+        let w = self.worker.as_mut().expect("started");
+        let sent = writeln!(w.stdin, "{line}").and_then(|_| w.stdin.flush());
+        let t0 = std::time::Instant::now();
+        let res = if sent.is_err() {
+            Err(mpsc::RecvTimeoutError::Disconnected)
+        } else {
+            w.rx.recv_timeout(Duration::from_secs(WATCHDOG_SECS))
+        };
+        let dt = t0.elapsed().as_secs_f64();
+        if res.is_ok() && dt > self.slowest.0 {
+            self.slowest = (dt, case.as_list().and_then(|l| l.first()).and_then(Sx::as_int).unwrap_or(-1));
+        }
+        match res {
+            Ok(text) => sx::parse_line(&text).unwrap_or(Sx::L(vec![Sx::N(-1)])),
+            Err(mpsc::RecvTimeoutError::Timeout) => {
+                self.stop();
+                Sx::L(vec![Sx::N(3)])
+            }
+            Err(mpsc::RecvTimeoutError::Disconnected) => {
+                self.stop();
+                Sx::L(vec![Sx::N(4)])
+            }
+        }
+    }
+}
+
+impl Drop for Supervisor {
+    fn drop(&mut self) {
+        self.stop();
+    }
+}
+
+static REPLAY_SUP: Mutex<Option<Supervisor>> = Mutex::new(None);
+
+pub fn replay(case: &Sx) -> Option<Sx> {
+    decode(case)?;
+    let mut g = REPLAY_SUP.lock().ok()?;
+    let sup = g.get_or_insert_with(Supervisor::default);
+    Some(sup.run(case))
 }
 
 pub fn dump(_dir: &str) {}
+
+// ---------------------------------------------------------------------------------------------
+// a JSON tree that can hold what serde_json::Value cannot: duplicate keys, raw number tokens,
+// raw fragments (deep nesting is spliced in as text)
+// ---------------------------------------------------------------------------------------------
+#[derive(Clone)]
+enum J {
+    Null,
+    Bool(bool),
+    Num(String),
+    Str(String),
+    Arr(Vec<J>),
+    Obj(Vec<(String, J)>),
+    Raw(String),
+}
+
+impl J {
+    fn of(v: &serde_json::Value) -> J {
+        match v {
+            serde_json::Value::Null => J::Null,
+            serde_json::Value::Bool(b) => J::Bool(*b),
+            serde_json::Value::Number(n) => J::Num(n.to_string()),
+            serde_json::Value::String(s) => J::Str(s.clone()),
+            serde_json::Value::Array(a) => J::Arr(a.iter().map(J::of).collect()),
+            serde_json::Value::Object(o) => J::Obj(o.iter().map(|(k, v)| (k.clone(), J::of(v))).collect()),
+        }
+    }
+    fn parse(b: &[u8]) -> Option<J> {
+        serde_json::from_slice::<serde_json::Value>(b).ok().map(|v| J::of(&v))
+    }
+    fn write(&self, out: &mut String) {
+        match self {
+            J::Null => out.push_str("null"),
+            J::Bool(b) => out.push_str(if *b { "true" } else { "false" }),
+            J::Num(n) | J::Raw(n) => out.push_str(n),
+            J::Str(s) => out.push_str(&serde_json::to_string(s).unwrap_or_default()),
+            J::Arr(a) => {
+                out.push('[');
+                for (i, x) in a.iter().enumerate() {
+                    if i > 0 {
+                        out.push(',');
+                    }
+                    x.write(out);
+                }
+                out.push(']');
+            }
+            J::Obj(o) => {
+                out.push('{');
+                for (i, (k, v)) in o.iter().enumerate() {
+                    if i > 0 {
+                        out.push(',');
+                    }
+                    out.push_str(&serde_json::to_string(k).unwrap_or_default());
+                    out.push(':');
+                    v.write(out);
+                }
+                out.push('}');
+            }
+        }
+    }
+    fn text(&self) -> String {
+        let mut s = String::new();
+        self.write(&mut s);
+        s
+    }
+    fn count(&self) -> usize {
+        1 + match self {
+            J::Arr(a) => a.iter().map(J::count).sum(),
+            J::Obj(o) => o.iter().map(|(_, v)| v.count()).sum(),
+            _ => 0,
+        }
+    }
+    /// The n-th node in pre-order.
+    fn nth_mut(&mut self, n: &mut usize) -> Option<&mut J> {
+        if *n == 0 {
+            return Some(self);
+        }
+        *n -= 1;
+        match self {
+            J::Arr(a) => {
+                for x in a {
+                    if let Some(r) = x.nth_mut(n) {
+                        return Some(r);
+                    }
+                }
+                None
+            }
+            J::Obj(o) => {
+                for (_, x) in o {
+                    if let Some(r) = x.nth_mut(n) {
+                        return Some(r);
+                    }
+                }
+                None
+            }
+            _ => None,
+        }
+    }
+}
+
+fn nested(open: &str, inner: &str, close: &str, depth: usize) -> String {
+    let mut s = String::with_capacity(depth * (open.len() + close.len()) + inner.len());
+    for _ in 0..depth {
+        s.push_str(open);
+    }
+    s.push_str(inner);
+    for _ in 0..depth {
+        s.push_str(close);
+    }
+    s
+}
+
+const BOUNDARY_SMALL: &[usize] = &[250, 251, 252, 253, 254, 255, 256, 257, 258, 259, 260];
+const BOUNDARY_BIG: &[usize] = &[65530, 65531, 65532, 65533, 65534, 65535, 65536, 65537, 65538, 65539, 65540];
+const JSON_DEPTHS: &[usize] = &[2, 16, 100, 120, 125, 126, 127, 128, 129, 130, 200, 1000];
+const JSON_DEPTHS_DEEP: &[usize] = &[5_000, 50_000];
+/// HTML nesting: up to 2000 open elements in the main stream; the `deep` stream goes to 16 000,
+/// the most a 65 KiB event can express (`<b>` x 16 000 = 48 KiB).  html5ever's tree builder
+/// scans the stack of open elements for some tags (`<ol>`, `<div>`, ...), so the parse time is
+/// quadratic in the depth: measured 1.4 s at 16 000, beyond the 10 s watchdog at about 45 000.
+const HTML_DEPTHS: &[usize] = &[2, 10, 99, 100, 101, 255, 256, 500, 1000, 2000];
+const HTML_DEPTHS_DEEP: &[usize] = &[4000, 8000, 16000];
+const HOSTILE_NUMBERS: &[&str] = &[
+    "1e999", "-1e999", "1e400", "1.5", "-0", "0.0", "1E2", "9007199254740991", "9007199254740992", "-9007199254740992",
+    "9223372036854775807", "9223372036854775808", "18446744073709551615", "18446744073709551616",
+    "-9223372036854775809", "340282366920938463463374607431768211456", "1e-999", "0.1e1", "2147483648", "4294967296",
+    "65536", "256", "255", "-1", "0",
+];
+const HOSTILE_STRINGS: &[&str] = &[
+    "", " ", "\u{0}", "\u{feff}", "\u{e9}", "\u{1f44d}", "\u{202e}", "a\nb", "*", "?", "**", "[!a-", "\\", "\\\\", "a\\", ".", "..",
+    ":", "::", "@", "@:", "!", "#", "$", "/", "//", "%", "%2", "%zz", "%00", "%ff", "'", "\"", ";", "=", ",", "mxc://",
+    "mxc:///", "mxc://a/", "ed25519:", ":x", "https://matrix.to/#/", "matrix:", "m.room.message", "m.", "m.room.", "true", "null", "{}", "[]",
+    "++50", "+5", "0x10", "1e3", "١٢٣", "ſ", "İ", "ß", "\u{fb01}",
+];
+
+/// Strings whose cost or index arithmetic depends on their size.
+fn hostile_pattern(r: &mut Rng) -> String {
+    let n = if r.chance(1, 60) {
+        *r.pick(&[60_000usize, 200_000])
+    } else if r.chance(1, 12) {
+        *r.pick(&[5000usize, 20_000])
+    } else {
+        *r.pick(&[3usize, 10, 30, 100, 300, 1000])
+    };
+    match r.below(8) {
+        0 => "?".repeat(n),
+        1 => "*".repeat(n),
+        2 => "*?".repeat(n / 2),
+        3 => format!("{}x", "a*".repeat(n.min(20_000) / 2)),
+        4 => "[".repeat(n),
+        5 => format!("a{}b", "?".repeat(n)),
+        6 => "\\".repeat(n),
+        _ => "(?i)".repeat(n.min(5000)),
+    }
+}
+
+fn boundary_len(r: &mut Rng, big_ok: bool) -> usize {
+    if big_ok && r.chance(1, 40) {
+        *r.pick(BOUNDARY_BIG)
+    } else {
+        *r.pick(BOUNDARY_SMALL)
+    }
+}
+
+// ---------------------------------------------------------------------------------------------
+// mutation
+// ---------------------------------------------------------------------------------------------
+const INTERESTING: &[&[u8]] = &[
+    b"\0", b"\xff", b"\x80", b"\xc0\x80", b"\xed\xa0\x80", b"\xf4\x90\x80\x80", b"\xe2\x82", b"\"", b"\\", b"/", b":", b"%", b"'", b";",
+    b"=", b"*", b"?", b"[", b"]", b"{", b"}", b",", b" ", b"\t", b"\n", b"\r\n", b"@", b"!", b"#", b"$", b"+", b"-", b".", b"&", b"<", b">",
+    b"%00", b"%2F", b"%25", b"%ff", b"%", b"''", b"\\\"", b"\\u0000", b"\\ud800", b"\xc3\xa9", b"\xf0\x9f\x91\x8d", b"0", b"9", b"a", b"Z",
+    b"null", b"true", b"1e999", b"-", b"[[", b"{\"", b"</", b"<!--", b"<![CDATA[", b"&#x", b"&#0;", b"&amp", b"<svg>", b"<math>", b"<table>",
+    b"<template>", b"<select>", b"<p>", b"</p>", b"<b>", b"<a href=\"", b"<mx-reply>", b"</mx-reply>", b"<plaintext>", b"<noscript>",
+    b"<title>", b"<textarea>", b"<frameset>", b"<!DOCTYPE", b"<?", b"<form>", b"<li>", b"<dd>", b"<h1>", b"<font ", b"<img src=x>",
+];
+
+fn bytes_mutate(r: &mut Rng, b: &mut Vec<u8>, utf8_only: bool, big_ok: bool) {
+    let n = b.len();
+    match r.below(11) {
+        0 if n > 0 => {
+            // deletion
+            let i = r.below(n);
+            let l = 1 + r.below(8.min(n - i));
+            b.drain(i..i + l);
+        }
+        1 if n > 0 => {
+            // duplication (once, or many times)
+            let i = r.below(n);
+            let l = 1 + r.below(16.min(n - i));
+            let seg = b[i..i + l].to_vec();
+            let times = if r.chance(1, 4) { 2 + r.below(64) } else { 1 };
+            for _ in 0..times {
+                b.splice(i..i, seg.iter().copied());
+            }
+        }
+        2 | 3 => {
+            // insertion of an interesting token
+            let tok = loop {
+                let t = *r.pick(INTERESTING);
+                if !utf8_only || std::str::from_utf8(t).is_ok() {
+                    break t;
+                }
+            };
+            let i = r.below(n + 1);
+            b.splice(i..i, tok.iter().copied());
+        }
+        4 if n > 0 => {
+            // byte replacement
+            let i = r.below(n);
+            b[i] = if utf8_only { *r.pick(b" \0\"'%/:;=*?[]{}\\@!#$.-+09azAZ~\x7f") } else { r.next() as u8 };
+        }
+        5 if n > 0 => {
+            b.truncate(r.below(n));
+        }
+        6 | 7 => {
+            // boundary length: stretch one place until the whole has a boundary length
+            let target = boundary_len(r, big_ok);
+            if n < target {
+                let i = r.below(n + 1);
+                let c = if n > 0 && r.chance(1, 2) { b[i.min(n - 1)] } else { *r.pick(b"a0.-_:/%*?\xc3") };
+                let c = if utf8_only && c >= 0x80 { b'a' } else { c };
+                b.splice(i..i, std::iter::repeat(c).take(target - n));
+            } else {
+                b.truncate(target);
+            }
+        }
+        8 if n > 1 => {
+            // swap two segments
+            let i = r.below(n - 1);
+            let j = i + 1 + r.below(n - i - 1);
+            b.swap(i, j);
+        }
+        9 => {
+            // case flip / bit flip
+            if n > 0 {
+                let i = r.below(n);
+                b[i] ^= if utf8_only { 0x20 } else { 1 << r.below(8) };
+            }
+        }
+        _ => {
+            let tok = *r.pick(INTERESTING);
+            if !utf8_only || std::str::from_utf8(tok).is_ok() {
+                b.extend_from_slice(tok);
+            }
+        }
+    }
+    if utf8_only && std::str::from_utf8(b).is_err() {
+        *b = String::from_utf8_lossy(b).into_owned().into_bytes();
+    }
+}
+
+fn hostile_value(r: &mut Rng, deep: bool) -> J {
+    match r.below(14) {
+        0 => J::Null,
+        1 => J::Bool(r.chance(1, 2)),
+        2 | 3 => J::Num((*r.pick(HOSTILE_NUMBERS)).to_owned()),
+        4 | 5 => J::Str((*r.pick(HOSTILE_STRINGS)).to_owned()),
+        6 => J::Str("a".repeat(boundary_len(r, true))),
+        7 => J::Arr(vec![]),
+        8 => J::Obj(vec![]),
+        9 => J::Str(hostile_pattern(r)),
+        10 => {
+            let d = if deep { *r.pick(JSON_DEPTHS_DEEP) } else { *r.pick(JSON_DEPTHS) };
+            J::Raw(nested("[", "1", "]", d))
+        }
+        11 => {
+            let d = if deep { *r.pick(JSON_DEPTHS_DEEP) } else { *r.pick(JSON_DEPTHS) };
+            J::Raw(nested("{\"a\":", "1", "}", d))
+        }
+        12 => J::Arr((0..r.below(300)).map(|i| J::Num(i.to_string())).collect()),
+        _ => J::Obj((0..r.below(40)).map(|i| (format!("k{i}"), J::Str("v".into()))).collect()),
+    }
+}
+
+/// One structural edit of a JSON text; `None` if the text is not JSON (then bytes are edited).
+fn json_mutate(r: &mut Rng, b: &[u8], deep: bool) -> Option<Vec<u8>> {
+    let mut j = J::parse(b)?;
+    let total = j.count();
+    let mut n = r.below(total);
+    let node = j.nth_mut(&mut n)?;
+    match r.below(12) {
+        0 | 1 => {
+            // deletion of a member / an element
+            match node {
+                J::Obj(o) if !o.is_empty() => {
+                    o.remove(r.below(o.len()));
+                }
+                J::Arr(a) if !a.is_empty() => {
+                    a.remove(r.below(a.len()));
+                }
+                other => *other = J::Null,
+            }
+        }
+        2 => {
+            // duplication (duplicate key, with the same or another value)
+            match node {
+                J::Obj(o) if !o.is_empty() => {
+                    let (k, v) = o[r.below(o.len())].clone();
+                    let v = if r.chance(1, 2) { v } else { hostile_value(r, false) };
+                    let at = r.below(o.len() + 1);
+                    o.insert(at, (k, v));
+                }
+                J::Arr(a) if !a.is_empty() => {
+                    let v = a[r.below(a.len())].clone();
+                    let times = if r.chance(1, 5) { 100 } else { 1 };
+                    for _ in 0..times {
+                        a.push(v.clone());
+                    }
+                }
+                other => *other = J::Arr(vec![other.clone(), other.clone()]),
+            }
+        }
+        3 | 4 | 5 => *node = hostile_value(r, deep), // type swap
+        6 => {
+            // deep nesting around the node
+            let d = if deep { *r.pick(JSON_DEPTHS_DEEP) } else { *r.pick(JSON_DEPTHS) };
+            let inner = node.text();
+            *node = J::Raw(if r.chance(1, 2) { nested("[", &inner, "]", d) } else { nested("{\"a\":", &inner, "}", d) });
+        }
+        7 => {
+            // a string / number edited in place
+            match node {
+                J::Str(s) => {
+                    let mut b = std::mem::take(s).into_bytes();
+                    bytes_mutate(r, &mut b, true, true);
+                    *s = String::from_utf8_lossy(&b).into_owned();
+                }
+                J::Num(n) => *n = (*r.pick(HOSTILE_NUMBERS)).to_owned(),
+                J::Bool(b) => *b = !*b,
+                other => *other = J::Str((*r.pick(HOSTILE_STRINGS)).to_owned()),
+            }
+        }
+        8 => {
+            // key edits: rename, unknown key, empty key
+            if let J::Obj(o) = node {
+                if !o.is_empty() && r.chance(2, 3) {
+                    let i = r.below(o.len());
+                    let mut k = std::mem::take(&mut o[i].0).into_bytes();
+                    bytes_mutate(r, &mut k, true, false);
+                    o[i].0 = String::from_utf8_lossy(&k).into_owned();
+                } else {
+                    o.push(((*r.pick(HOSTILE_STRINGS)).to_owned(), hostile_value(r, false)));
+                }
+            } else {
+                *node = J::Obj(vec![("k".into(), node.clone())]);
+            }
+        }
+        9 => {
+            // a value moved to where another type is expected: wrap / unwrap
+            *node = match node.clone() {
+                J::Arr(mut a) if !a.is_empty() => a.remove(0),
+                J::Obj(mut o) if !o.is_empty() => o.remove(0).1,
+                J::Str(s) => J::Raw(s.parse::<i64>().map(|n| n.to_string()).unwrap_or_else(|_| "[\"x\"]".into())),
+                J::Num(n) => J::Str(n),
+                other => J::Arr(vec![other]),
+            };
+        }
+        10 => {
+            // hostile push pattern / id in a string slot
+            if let J::Str(s) = node {
+                *s = hostile_pattern(r);
+            } else {
+                *node = J::Str("a".repeat(boundary_len(r, true)));
+            }
+        }
+        _ => {
+            // swap two members' values
+            if let J::Obj(o) = node {
+                if o.len() > 1 {
+                    let (i, k) = (r.below(o.len()), r.below(o.len()));
+                    let t = o[i].1.clone();
+                    o[i].1 = o[k].1.clone();
+                    o[k].1 = t;
+                }
+            }
+        }
+    }
+    Some(j.text().into_bytes())
+}
+
+fn html_mutate(r: &mut Rng, b: &mut Vec<u8>, deep: bool) {
+    let depths = if deep { HTML_DEPTHS_DEEP } else { HTML_DEPTHS };
+    const TAGS: &[&str] = &[
+        "div", "span", "b", "i", "a", "p", "font", "blockquote", "ul", "li", "table", "td", "mx-reply", "details", "sup",
+        "svg", "math", "template", "select", "h1", "pre", "code", "del", "em", "strong", "ol", "dl", "dd", "button", "nobr",
+    ];
+    match if deep { r.below(2) } else { r.below(8) } {
+        0 => {
+            let d = *r.pick(depths);
+            let t = *r.pick(TAGS);
+            let inner = String::from_utf8_lossy(b).into_owned();
+            *b = nested(&format!("<{t}>"), &inner, &format!("</{t}>"), d).into_bytes();
+        }
+        1 => {
+            // unclosed nesting
+            let d = *r.pick(depths);
+            let t = *r.pick(TAGS);
+            let mut s = format!("<{t}>").repeat(d).into_bytes();
+            s.extend_from_slice(b);
+            *b = s;
+        }
+        2 => {
+            // mis-nested formatting elements (adoption agency)
+            let d = *r.pick(&[2usize, 8, 16, 64, 200]);
+            let mut s = String::new();
+            for i in 0..d {
+                s.push_str(if i % 2 == 0 { "<b><p>" } else { "<i><a href=x>" });
+            }
+            for i in 0..d {
+                s.push_str(if i % 2 == 0 { "</b>x" } else { "</p></i>" });
+            }
+            b.extend_from_slice(s.as_bytes());
+        }
+        3 => {
+            // many attributes / long attribute
+            let n = *r.pick(&[1usize, 10, 300]);
+            let mut s = String::from("<a");
+            for i in 0..n {
+                s.push_str(&format!(" a{i}=\"{}\"", if r.chance(1, 10) { "x".repeat(boundary_len(r, true)) } else { "v".into() }));
+            }
+            s.push_str(" href=\"https://x\" class=\"language-a language-b x\" data-mx-color='#fff'>t</a>");
+            let i = r.below(b.len() + 1);
+            b.splice(i..i, s.into_bytes());
+        }
+        4 => {
+            let d = *r.pick(HTML_DEPTHS);
+            *b = format!("{}{}", "<table><tr><td>".repeat(d / 3), String::from_utf8_lossy(b)).into_bytes();
+        }
+        _ => bytes_mutate(r, b, true, true),
+    }
+    if std::str::from_utf8(b).is_err() {
+        *b = String::from_utf8_lossy(b).into_owned().into_bytes();
+    }
+}
+
+/// One mutant of `seed`: one part edited (sometimes two).
+fn mutate(r: &mut Rng, e: &Entry, seed: &[Vec<u8>], all_parts: &[Vec<u8>], deep: bool) -> Vec<Vec<u8>> {
+    let mut parts = seed.to_vec();
+    let rounds = if r.chance(1, 4) { 2 + r.below(3) } else { 1 };
+    for _ in 0..rounds {
+        if parts.is_empty() {
+            break;
+        }
+        // selectors are edited rarely
+        let mut i = r.below(parts.len());
+        if e.kinds.get(i) == Some(&K::Sel) && !r.chance(1, 8) {
+            i = (0..parts.len()).find(|k| e.kinds.get(*k) != Some(&K::Sel)).unwrap_or(i);
+        }
+        let kind = e.kinds.get(i).copied().unwrap_or(K::Bytes);
+        if r.chance(1, 40) && !all_parts.is_empty() {
+            // a valid input of some other entry point
+            parts[i] = r.pick(all_parts).clone();
+            continue;
+        }
+        match kind {
+            K::Json => {
+                let structural = if r.chance(3, 4) { json_mutate(r, &parts[i], deep) } else { None };
+                match structural {
+                    Some(b) => parts[i] = b,
+                    None => bytes_mutate(r, &mut parts[i], false, false),
+                }
+            }
+            K::Html => html_mutate(r, &mut parts[i], deep),
+            K::Text => bytes_mutate(r, &mut parts[i], true, true),
+            K::Bytes => bytes_mutate(r, &mut parts[i], false, true),
+            K::Sel => {
+                if r.chance(1, 2) {
+                    parts[i] = r.below(300).to_string().into_bytes();
+                } else {
+                    bytes_mutate(r, &mut parts[i], true, false);
+                }
+            }
+        }
+    }
+    parts
+}
+
+fn case_of(id: i128, parts: &[Vec<u8>]) -> Sx {
+    let mut l = vec![Sx::N(id)];
+    l.extend(parts.iter().map(|p| Sx::S(p.clone())));
+    Sx::L(l)
+}
+
+/// Inputs every byte-level parser should see once: all single bytes, all pairs over a small
+/// alphabet, each boundary length.
+fn systematic(e: &Entry, seed: &[Vec<u8>], out: &mut Vec<Vec<Vec<u8>>>) {
+    let Some(slot) = (0..seed.len()).find(|k| matches!(e.kinds.get(*k), Some(K::Text | K::Bytes))) else { return };
+    let with = |b: Vec<u8>| {
+        let mut p = seed.to_vec();
+        p[slot] = b;
+        p
+    };
+    out.push(with(vec![]));
+    let bytes_ok = e.kinds[slot] == K::Bytes;
+    for c in 0..=255u8 {
+        if c < 0x80 || bytes_ok {
+            out.push(with(vec![c]));
+        }
+    }
+    let alpha = b"a:/@!#$%*?\\\"';= .-+[]\xc3\xa9";
+    for &a in alpha.iter() {
+        for &b in alpha.iter() {
+            let v = vec![a, b];
+            if bytes_ok || std::str::from_utf8(&v).is_ok() {
+                out.push(with(v));
+            }
+        }
+    }
+    // every boundary length, by stretching the seed in front of its last byte and at its start
+    for &n in BOUNDARY_SMALL.iter().chain([65535usize, 65536].iter()) {
+        let s = &seed[slot];
+        if s.len() < n {
+            let mut v = s.clone();
+            let at = s.len().saturating_sub(1);
+            v.splice(at..at, std::iter::repeat(b'a').take(n - s.len()));
+            out.push(with(v));
+            if n < 1000 {
+                let mut v = s.clone();
+                let at = 1.min(s.len());
+                v.splice(at..at, std::iter::repeat(b'a').take(n - s.len()));
+                out.push(with(v));
+            }
+        }
+    }
+}
+
+pub fn run(tier: &str, seed: u64, em: &mut Emitter) {
+    if std::env::var_os("VHARNESS_C17_CHILD").is_some() {
+        child_main();
+    }
+    let table = entries();
+    let per_entry: usize = match tier {
+        "thorough" => 32_000,
+        _ => 1_600,
+    };
+    let mut sup = Supervisor::default();
+    let mut stop = false;
+    let emit = |em: &mut Emitter, sup: &mut Supervisor, tag: &str, id: i128, parts: &[Vec<u8>]| -> bool {
+        let case = case_of(id, parts);
+        let out = sup.run(&case);
+        let bad = !matches!(out.as_list().and_then(|l| l.first()), Some(Sx::N(0 | 1)));
+        em.emit(tag, case, out);
+        bad
+    };
+    let all_parts: Vec<Vec<u8>> =
+        table.iter().flat_map(|e| (e.seeds)().into_iter().flatten()).filter(|p| p.len() > 2).collect();
+
+    // 1. valid seeds, 2. systematic byte-level inputs
+    for e in &table {
+        let seeds = (e.seeds)();
+        for s in &seeds {
+            emit(em, &mut sup, "seed", e.id, s);
+        }
+        let mut sys = vec![];
+        systematic(e, &seeds[0], &mut sys);
+        for s in &sys {
+            emit(em, &mut sup, "systematic", e.id, s);
+        }
+    }
+    // 3. mutants, interleaved over the entry points so that calls of different kinds follow each
+    //    other in the same worker process
+    let mut rngs: Vec<Rng> = table.iter().map(|e| Rng::new(seed ^ 0xC17 ^ ((e.id as u64) << 20))).collect();
+    let mut violations = 0;
+    let chunk = 50;
+    let mut done = 0;
+    while done < per_entry && !stop {
+        for (e, r) in table.iter().zip(rngs.iter_mut()) {
+            let seeds = (e.seeds)();
+            for _ in 0..chunk {
+                let s = r.pick(&seeds);
+                let m = mutate(r, e, s, &all_parts, false);
+                // mutants of mutants: keep a second generation going
+                let m = if r.chance(1, 3) { mutate(r, e, &m, &all_parts, false) } else { m };
+                if emit(em, &mut sup, "mutant", e.id, &m) {
+                    violations += 1;
+                }
+            }
+            if violations > 200 {
+                // every further case costs a worker restart; the verdict is settled
+                stop = true;
+                break;
+            }
+        }
+        done += chunk;
+    }
+    // 4. very deep nesting (beyond any parser's recursion limit): a stack overflow here is an
+    //    abort of the worker, reported as outcome ( N4 )
+    let deep_n = if tier == "thorough" { 60 } else { 6 };
+    for (e, r) in table.iter().zip(rngs.iter_mut()) {
+        if stop || !e.kinds.iter().any(|k| matches!(k, K::Json | K::Html)) {
+            continue;
+        }
+        let seeds = (e.seeds)();
+        for _ in 0..deep_n {
+            let s = r.pick(&seeds);
+            let m = mutate(r, e, s, &all_parts, true);
+            emit(em, &mut sup, "deep", e.id, &m);
+        }
+    }
+    sup.stop();
+    eprintln!(
+        "c17: {} worker process(es) used; slowest answered case {:.2} s (entry {})",
+        sup.starts, sup.slowest.0, sup.slowest.1
+    );
+}
